@@ -115,6 +115,14 @@ class TableRel:
         return self._answer(subject, relation, resource, context)
 
 
+class AsyncDefTableRel(TableRel):
+    """the same checker written the usual way: `async def check` (inspect.iscoroutinefunction is true of it, unlike of a plain method
+    that returns a coroutine object)"""
+
+    async def check(self, subject, relation, resource, *, context=None):  # type: ignore[override]
+        return self._answer(subject, relation, resource, context)
+
+
 class FixedChecker:
     def __init__(self, spec, mode="sync"):
         self.spec = spec
@@ -151,6 +159,24 @@ class FixedResolver:
         return val
 
 
+class AsyncDefChecker(FixedChecker):
+    async def check(self, raw, context):  # type: ignore[override]
+        if self.spec == "raise":
+            raise RuntimeError("checker down")
+        _, ok, ch = self.spec
+        return ok, ch
+
+
+class AsyncDefResolver(FixedResolver):
+    async def expand(self, roles):  # type: ignore[override]
+        if self.spec == "raise":
+            raise RuntimeError("resolver down")
+        return copy.deepcopy(self.spec["ok"])
+
+
+_ASYNC_TOGGLE = [0]
+
+
 def make_request(req: dict):
     subject = Subject(id=req["sid"], roles=req["roles"], attrs=req["sattrs"])
     action = Action(name=req["action"])
@@ -162,17 +188,22 @@ def make_request(req: dict):
 def make_guard(policy: dict, cfg: dict, events: list, rel_calls: list | None = None, flavour: str = "sync", cache=None):
     kw: dict[str, Any] = {}
     amode = "async" if flavour.endswith("collab-async") else "awaitable" if flavour.endswith("collab-awaitable") else "sync"
+    # asynchronous collaborators come in two spellings, alternating: a plain method that returns a coroutine object, and `async def`
+    asyncdef = False
+    if amode == "async":
+        _ASYNC_TOGGLE[0] += 1
+        asyncdef = _ASYNC_TOGGLE[0] % 2 == 1
     ck = cfg.get("checker")
     if ck not in (None, "builtin"):
-        kw["obligation_checker"] = FixedChecker(ck, amode)
+        kw["obligation_checker"] = (AsyncDefChecker if asyncdef else FixedChecker)(ck, amode)
     rs = cfg.get("resolver")
     if rs is not None:
         # an object with `.expand` (e.g. the real StaticRoleResolver, props/c18.py) is used as is
-        kw["role_resolver"] = rs if hasattr(rs, "expand") else FixedResolver(rs, amode)
+        kw["role_resolver"] = rs if hasattr(rs, "expand") else (AsyncDefResolver if asyncdef else FixedResolver)(rs, amode)
     rel = cfg.get("rel")
     if rel is not None:
-        kw["relationship_checker"] = TableRel(rel["table"], rel.get("default"), rel_calls if rel_calls is not None else [], amode,
-                                              rel.get("raise_with"))
+        kw["relationship_checker"] = (AsyncDefTableRel if asyncdef else TableRel)(
+            rel["table"], rel.get("default"), rel_calls if rel_calls is not None else [], amode, rel.get("raise_with"))
     if cfg.get("metrics"):
         kw["metrics"] = (AsyncRecMetrics if amode != "sync" else RecMetrics)(events, cfg.get("sink_mode", "sync"))
     if cfg.get("logger"):
